@@ -215,6 +215,12 @@ VF_E cp s_cbegin(S const& a) { return a.cbegin(); }
 VF_E cp s_cend(S const& a) { return a.cend(); }
 VF_E char* s_rbegin_base(S& a) { return a.rbegin().base(); }
 VF_E char* s_rend_base(S& a) { return a.rend().base(); }
+VF_E cp s_begin_c(S const& a) { return a.begin(); }
+VF_E cp s_end_c(S const& a) { return a.end(); }
+VF_E cp s_crbegin_base(S const& a) { return a.crbegin().base(); }
+VF_E cp s_crend_base(S const& a) { return a.crend().base(); }
+VF_E cp s_rbegin_c_base(S const& a) { return a.rbegin().base(); }
+VF_E cp s_rend_c_base(S const& a) { return a.rend().base(); }
 VF_E sz s_size(S const& a) { return a.size(); }
 VF_E sz s_length(S const& a) { return a.length(); }
 VF_E sz s_capacity(S const& a) { return a.capacity(); }
